@@ -18,14 +18,59 @@ def plan(tier: str, seed: int) -> List[Dict[str, Any]]:
     n_single = 16 if quick else 32
     out = [{'kind': 'single', 'part': i, 'parts': n_single, 'seed': seed, 'tier': tier, 'timeout_s': 1500 if quick else 10000}
            for i in range(n_single)]
+    for i in range(4 if quick else 16):
+        out.append({'kind': 'standalone-init', 'part': i, 'parts': 4 if quick else 16, 'seed': seed, 'tier': tier,
+                    'timeout_s': 1500 if quick else 10000})
     for i in range(6 if quick else 16):
         out.append({'kind': 'sequence', 'part': i, 'seed': seed, 'tier': tier, 'programs': 5 if quick else 40,
                     'timeout_s': 1500 if quick else 10000})
     return out
 
 
+STANDALONE_TABLES = {'add': ['add_carry'], 'sub': ['sub_carry'], 'or': ['or_dst'], 'and': ['and_dst'], 'cmp': ['cmp_dst']}
+
+
+def standalone_specs(rng: Any) -> List[Any]:
+    """the documented alternative to hex.init: `hex.tables.init_shared` plus only the tables a macro `@requires`, placed wherever
+    the program likes (the only way to use the library at w=16). every spec gets its own init block at a drawn position: a
+    table's alignment must come from the table itself, not from what hex.init happens to put in front of it."""
+    import dataclasses
+
+    out = []
+    for spec in SPECS:
+        tables = [t for t in spec.requires.split(',') if t]
+        if not tables or any(t not in STANDALONE_TABLES for t in tables) or spec.doc.startswith(('hex/mul', 'hex/div')):
+            continue
+        available = {'tables_res', 'tables_ret'} | {h for t in tables for h in STANDALONE_TABLES[t]}
+        if any(op.kind == 'hidden' and op.target not in available for op in spec.operands):
+            continue
+        filler = rng.choice([0, 1, 2, 5, 100, 200, 250, 253, 254, 255, 256, 257, 300, 400, 511, 512, 700])
+        block = ('stl.startup\n;fjv_go\n' + ';\n' * filler + 'fjv_go:\n;fjv_after\nhex.tables.init_shared\n'
+                 + ''.join(f'hex.{t}.init\n' for t in tables) + 'fjv_after:')
+        out.append((dataclasses.replace(spec, needs=block, widths=(16, 32, 64)), sorted(available)))
+    return out
+
+
 def run_shard(spec: Dict[str, Any], journal: Any) -> Dict[str, Any]:
     rec = runner.Recorder(PROPERTY)
+    if spec['kind'] == 'standalone-init':
+        from fjverif.common import rng_for
+
+        rng = rng_for(spec['seed'], PROPERTY, 'standalone', spec['part'])
+        sub = runner.Recorder(PROPERTY)
+        for index, (s_spec, available) in enumerate(standalone_specs(rng)):
+            if index % spec['parts'] != spec['part']:
+                continue
+            hidden = [h for h in spec_hex.HIDDEN if h.name in available]
+            runner.shard_single(sub, [s_spec], [0], (spec['seed'], PROPERTY, 'standalone', spec['part'], index), spec['tier'], journal,
+                                hidden=hidden)
+        engines.cleanup_tmpdir()
+        # (programs that do not fit w=16 and the like are this shard's own business: its counters stay apart from the main ones)
+        counters = {'standalone_init': {k: v for k, v in sub.counters.items() if not isinstance(v, (dict, list))},
+                    'monitor_evaluations': sub.counters.get('monitor_evaluations', 0),
+                    'applications_monitored': sub.counters.get('applications_monitored', 0)}
+        return {'counters': counters, 'violations': sub.violations, 'hashes': sub.hashes, 'samples': [],
+                'evaluations': sub.counters.get('monitor_evaluations', 0)}
     if spec['kind'] == 'single':
         indices = list(range(len(SPECS)))[spec['part']::spec['parts']]
         runner.shard_single(rec, SPECS, indices, (spec['seed'], PROPERTY, 'single', spec['part']), spec['tier'], journal,
@@ -56,6 +101,8 @@ def finalize(tier: str, seed: int, counters: Dict[str, Any], evaluations: int, d
         inconclusive.append(f'{counters["programs_not_assembled"]} rendered programs did not assemble: {counters.get("assembly_errors")}')
     if counters.get('unbindable'):
         inconclusive.append(f'{counters["unbindable"]} (macro, n, w) combinations could not be bound to variables')
+    if not counters.get('standalone_init', {}).get('monitor_evaluations'):
+        inconclusive.append('no macro was monitored with standalone table inits (hex.tables.init_shared + hex.<table>.init)')
     if not counters.get('sequence_programs'):
         inconclusive.append('no sequence program ran')
     if counters.get('applications_checked_with_a_stale_carry', 0) < 1000:
